@@ -155,11 +155,42 @@ func RunExpire(seed int64, p ExpProfile) (out []Ev) {
 		}
 		defer func() { column.VerifYield = nil }()
 	}
+	// the first time-to-live of a row and its extension in ONE transaction (put, then merge, in one commit)
+	setExtend := func(o uint32, ttl, by time.Duration) {
+		P.Query(func(txn *column.Txn) error {
+			return txn.QueryAt(o, func(column.Row) error {
+				txn.TTL().Set(ttl)
+				txn.TTL().Extend(by)
+				return nil
+			})
+		})
+		w.T.Log(Ev{"e": "xext", "c": "P", "o": int(o), "by": int(by / time.Millisecond)})
+	}
+	insertExtended := func(ttl, by time.Duration) (o uint32) {
+		P.Query(func(txn *column.Txn) error {
+			o, _ = txn.Insert(func(r column.Row) error {
+				r.SetTTL(ttl)
+				txn.TTL().Extend(by)
+				return nil
+			})
+			return nil
+		})
+		w.T.Log(Ev{"e": "xext", "c": "P", "o": int(o), "by": int(by / time.Millisecond)})
+		return
+	}
 	type kind int
 	var short, long, none, ext []uint32
 	for i := 0; i < p.Rows; i++ {
 		var ttl time.Duration
-		k := rnd.Intn(4)
+		k := rnd.Intn(6)
+		if k == 5 { // inserted with a short TTL extended in the insert itself: far (stays) or a little (goes later)
+			if rnd.Intn(2) == 0 {
+				long = append(long, insertExtended(time.Duration(100+rnd.Intn(100))*time.Millisecond, time.Hour))
+			} else {
+				short = append(short, insertExtended(time.Duration(50+rnd.Intn(100))*time.Millisecond, time.Duration(100+rnd.Intn(200))*time.Millisecond))
+			}
+			continue
+		}
 		switch k {
 		case 1:
 			ttl = time.Duration(30+rnd.Intn(300)) * time.Millisecond
@@ -176,6 +207,14 @@ func RunExpire(seed int64, p ExpProfile) (out []Ev) {
 			return nil
 		})
 		switch k {
+		case 4: // no TTL at first; set and extended in one later transaction
+			if rnd.Intn(2) == 0 {
+				setExtend(o, time.Duration(100+rnd.Intn(100))*time.Millisecond, time.Hour)
+				long = append(long, o)
+			} else {
+				setExtend(o, time.Duration(50+rnd.Intn(100))*time.Millisecond, time.Duration(100+rnd.Intn(200))*time.Millisecond)
+				short = append(short, o)
+			}
 		case 0:
 			none = append(none, o)
 		case 1:
